@@ -189,7 +189,10 @@ func VF_C06_a() {
 	// C06.a.map: when a reorg marker survived, ChainDB.Init (loadChainData + recover -> RecoverChainMapping) presents
 	// the OLD chain again: persisted and cached latest pointer, height index, nothing mapped above the old tip
 	afterInit := func(cdb *ChainDB, kv2 *vf.KV) {
-		if markerLeft {
+		// (only for atomic units: after a TORN swapChainMapping bulk the latest pointer is still the old one, so
+		// RecoverChainMapping sees best == marker.BrBestHash and leaves the partly swapped height index for the reorg
+		// that Recover() re-runs; the property demands coherence after recovery, which C06.b asserts below)
+		if markerLeft && u.kv.TornApplied == 0 {
 			vf.Reach("C06.a.map")
 			vfCheckHeights("C06.a.map", cdb, kv2, u.oldPath(), u.f+b)
 		}
